@@ -7,7 +7,7 @@ G = None
 def register(progs, g):
     global G
     G = g
-    progs.update({'C17': prog_C17, 'C03': prog_C03, 'C16': prog_C16, 'C01': prog_C01, 'C02': prog_C02, 'C08': prog_C08, 'C09': prog_C09, 'C10': prog_C10, 'C15': prog_C15, 'C18': prog_C18, 'C07': prog_C07})
+    progs.update({'C17': prog_C17, 'C03': prog_C03, 'C16': prog_C16, 'C01': prog_C01, 'C02': prog_C02, 'C08': prog_C08, 'C09': prog_C09, 'C10': prog_C10, 'C15': prog_C15, 'C18': prog_C18, 'C07': prog_C07, 'C11': prog_C11})
 
 
 def plain_diff(ops_path, a_path, b_path, limit=40):
@@ -270,3 +270,11 @@ def prog_C07(ctx):
                                detail='', diffs=res['diffs'][:10], script=os.path.join(res['dir'], 'ops.txt')))
     if res is not None:
         ctx.cov['node_layer'] = dict(operations=res['nops'], disagreements=res['ndiffs'])
+
+
+def prog_C11(ctx):
+    fsm_part(ctx, ['C05', 'C11'], ['event_dkg'])
+    generic(ctx, ['Dc4bcVerif.Props.C11', 'Dc4bcVerif.Props.C02'], 'algdiff', 'alg', ['C11'], ALG_TRUSTED,
+            ALG_RULE + '; C11: one key generation per (deviation kind, dealer, victim): broadcast commitments with replaced tail / all replaced / longer / shorter / a non-point, deal bit-flipped / truncated / empty / meant for somebody else, a response turned into a complaint; quick: (3,2) one pair per kind; thorough: four configurations, all or sampled pairs; plus a control run without deviation',
+            cov_from_stats=alg_cov)
+    ctx.assumptions += ['a deviating participant is played by rewriting its own airgapped result before its own node posts it (executeOperation binds ID, type and request payload, not the result messages)']
